@@ -1,7 +1,7 @@
 ------------------------------- MODULE Trace_VfsPerm -------------------------------
 (* C11 validator: the judge is Trace_Vfs!JudgeStep, unchanged (reference operators Vfs!Op_chmod_b / Op_chown_b, ChmodSym).
-   The only addition: a BAD class of a chmod call gets three more fields that describe the symbolic expression, so that
-   a recorded finding suppresses only itself:
+   The only addition: a BAD class of a chmod / chown call gets five more fields that describe the symbolic expression and
+   the difference to the expected state, so that a recorded finding suppresses only itself (chown: fields 9-11 are "-"):
      field 9   "sym:unused" | "sym:wf" | "sym:first-malformed" | "sym:later-malformed"
      field 10  wf:              "clause-after-skipped-clause" when for some targeted entry a clause that does not select it
                                 precedes one that does (the situation of A11), else "-"
@@ -47,24 +47,27 @@ SymClass(st, c) ==
 DiffClass(st, s) ==
    LET c == s.c
        ra == ResolveA(st, c)
-       co == IF c.op = "chmod_b" THEN ChmodOpts(c) ELSE [dm |-> c.m, fm |-> c.m, sym |-> <<>>, recursive |-> TRUE, follow |-> FALSE]
+       rec == IF c.op \in {"chmod_b", "chown_b"} THEN ~HasFlag(c, "R") ELSE TRUE
+       fol == IF c.op \in {"chmod_b", "chown_b"} THEN HasFlag(c, "F") ELSE FALSE
    IN IF ra.o # "ok" \/ ~Exists(st.fs, ra.p) \/ (s.same # "t" /\ RepViolation(s.post) # "-") THEN <<"-", "-">>
       ELSE LET fs == st.fs
-               ex == Expected(st, c, MemOwn).st.fs
+               ex == Expected(st, c, MemOwn).st.fs                      \* may hold wildcards (owner of a followed link): compared with NodeEq
                po == IF s.same = "t" THEN fs ELSE AbsOf(s.post).fs
                Both == DOMAIN fs \cap DOMAIN po \cap DOMAIN ex
-               extra == {x \in Both : ex[x] = fs[x] /\ po[x] # fs[x]}
-               wrong == {x \in Both : ex[x] # fs[x] /\ po[x] # fs[x] /\ po[x] # ex[x]}
-               missed == {x \in Both : ex[x] # fs[x] /\ po[x] = fs[x]}
-               V == Visit(fs, ra.p, co.recursive, co.follow)
+               extra == {x \in Both : NodeEq(ex[x], fs[x]) /\ ~NodeEq(ex[x], po[x])}
+               wrong == {x \in Both : ~NodeEq(ex[x], fs[x]) /\ po[x] # fs[x] /\ ~NodeEq(ex[x], po[x])}
+               missed == {x \in Both : ~NodeEq(ex[x], fs[x]) /\ po[x] = fs[x]}
+               V == Visit(fs, ra.p, rec, fol)
            IN << IF \E x \in extra : fs[x].k = "link" THEN "link-altered"
                  ELSE IF extra # {} THEN "changed-unexpectedly"
                  ELSE IF wrong # {} THEN "wrong-value"
-                 ELSE IF missed # {} THEN (IF missed \cap Visit(fs, ra.p, co.recursive, FALSE) = {} THEN "missed-only-via-link" ELSE "missed")
+                 ELSE IF missed # {} THEN (IF missed \cap Visit(fs, ra.p, rec, FALSE) = {} THEN "missed-only-via-link" ELSE "missed")
                  ELSE "-",
                  IF \E x \in V : IsLink(fs, x) /\ IsLink(fs, fs[x].t) THEN "link-chain" ELSE "-" >>
 JudgeStepP(pre, s) == LET j == JudgeStep(pre, s) IN
-   IF j[1][1] = "BAD" /\ s.c.op \in {"chmod_b", "chmod"} THEN << j[1] \o SymClass(pre, s.c) \o DiffClass(pre, s) >> ELSE j
+   IF j[1][1] = "BAD" /\ s.c.op \in {"chmod_b", "chmod"} THEN << j[1] \o SymClass(pre, s.c) \o DiffClass(pre, s) >>
+   ELSE IF j[1][1] = "BAD" /\ s.c.op \in {"chown_b", "chown"} THEN << j[1] \o <<"-", "-", "-">> \o DiffClass(pre, s) >>
+   ELSE j
 RECURSIVE TallyStepsP(_, _, _, _, _)
 TallyStepsP(tally, pre, steps, i, g) == IF i > Len(steps) THEN tally
    ELSE TallyStepsP(UpdAll(tally, JudgeStepP(pre, steps[i]), g * 1000 + i), pre, steps, i + 1, g)
